@@ -1,48 +1,49 @@
 /-
-  Proof/MultiChanS2.lean — `MultiChan.Inv` is preserved by the events of group S2
-  (one lemma per event; several modules so that they compile in parallel).
+  Proof/MultiChanS2.lean — `MultiChan.Inv` (one-list discipline) is preserved by the events of
+  group S2 (one lemma per event; several modules so that they compile in parallel).
 -/
 import LibfiberVerif.Proof.MultiChanInv
 
 set_option linter.unusedSimpArgs false
+set_option linter.unusedVariables false
 
 namespace LibfiberVerif.MultiChan
 
 set_option maxHeartbeats 4000000 in
-theorem inv_step_fadd (s s' : St) (f old : _) (hi : Inv s) (hs : step s (.fadd f old) = some s') : Inv s' := by
+theorem inv_step_fadd (s s' : St) (f old : _) (htwo : s.two = false) (hi : Inv s) (hs : step s (.fadd f old) = some s') : Inv s' := by
   have hI := hi
   obtain ⟨h1, h2, h3, h4, h5, h6, h7, h8, h9, h10, h11, h12, h13, h14, h15, h16, h17, h18, h19, h20, h21, h22, h23, h24, h25, h26, h27, h28, h29, h30, h31, h32⟩ := hi
-  simp only [step] at hs
+  simp only [step, htwo] at hs
   repeat' (split at hs)
   all_goals (try simp at hs)
   all_goals (first | subst hs | (obtain ⟨_, hs⟩ := hs; subst hs))
   all_goals (constructor <;> mc_close)
 
 set_option maxHeartbeats 4000000 in
-theorem inv_step_rLow (s s' : St) (f l : _) (hi : Inv s) (hs : step s (.rLow f l) = some s') : Inv s' := by
+theorem inv_step_rLow (s s' : St) (f l : _) (htwo : s.two = false) (hi : Inv s) (hs : step s (.rLow f l) = some s') : Inv s' := by
   have hI := hi
   obtain ⟨h1, h2, h3, h4, h5, h6, h7, h8, h9, h10, h11, h12, h13, h14, h15, h16, h17, h18, h19, h20, h21, h22, h23, h24, h25, h26, h27, h28, h29, h30, h31, h32⟩ := hi
-  simp only [step] at hs
+  simp only [step, htwo] at hs
   repeat' (split at hs)
   all_goals (try simp at hs)
   all_goals (first | subst hs | (obtain ⟨_, hs⟩ := hs; subst hs))
   all_goals (constructor <;> mc_close)
 
 set_option maxHeartbeats 4000000 in
-theorem inv_step_wHigh (s s' : St) (f h : _) (hi : Inv s) (hs : step s (.wHigh f h) = some s') : Inv s' := by
+theorem inv_step_wHigh (s s' : St) (f h : _) (htwo : s.two = false) (hi : Inv s) (hs : step s (.wHigh f h) = some s') : Inv s' := by
   have hI := hi
   obtain ⟨h1, h2, h3, h4, h5, h6, h7, h8, h9, h10, h11, h12, h13, h14, h15, h16, h17, h18, h19, h20, h21, h22, h23, h24, h25, h26, h27, h28, h29, h30, h31, h32⟩ := hi
-  simp only [step] at hs
+  simp only [step, htwo] at hs
   repeat' (split at hs)
   all_goals (try simp at hs)
   all_goals (first | subst hs | (obtain ⟨_, hs⟩ := hs; subst hs))
   all_goals (constructor <;> mc_close)
 
 set_option maxHeartbeats 4000000 in
-theorem inv_step_rBuf (s s' : St) (f i x : _) (hi : Inv s) (hs : step s (.rBuf f i x) = some s') : Inv s' := by
+theorem inv_step_rBuf (s s' : St) (f i x : _) (htwo : s.two = false) (hi : Inv s) (hs : step s (.rBuf f i x) = some s') : Inv s' := by
   have hI := hi
   obtain ⟨h1, h2, h3, h4, h5, h6, h7, h8, h9, h10, h11, h12, h13, h14, h15, h16, h17, h18, h19, h20, h21, h22, h23, h24, h25, h26, h27, h28, h29, h30, h31, h32⟩ := hi
-  simp only [step] at hs
+  simp only [step, htwo] at hs
   repeat' (split at hs)
   all_goals (try simp at hs)
   all_goals (first | subst hs | (obtain ⟨_, hs⟩ := hs; subst hs))
